@@ -1321,8 +1321,8 @@ func TestVerifC08(t *testing.T) {
 	c.Assume("the shadow model transcribes the documented rules (occurrence time = clock if after the last issued timestamp else last+1ns; repeat when repeat-after is 0 or occurrence > last-repeated + repeat-after of this call)")
 	c.Assume("a goroutine shown as [sync.Cond.Wait] in a runtime.Stack(all) dump taken while holding the state lock has not been signalled since it parked")
 
-	nSeq := kit.Scale(200, 1000)
-	nConc := kit.Scale(60, 250)
+	nSeq := kit.Scale(200, 500)
+	nConc := kit.Scale(60, 120)
 	if only := kit.OnlyCase(); only >= 0 {
 		// replay of one case: sequential indices are < 1e6, concurrent ones >= 1e6
 		baseline := map[int64]bool{}
